@@ -58,6 +58,9 @@ pub struct Knobs {
     pub policy: PolicyCfg,
     pub sched_seed: u64,
     pub tokio_seed: u64,
+    /// Start value of std's hash keys on the run's thread (iteration order of the product's HashMaps).
+    #[serde(default)]
+    pub hash_seed: u64,
 }
 
 #[derive(Debug, Clone, Serialize, Deserialize, PartialEq, Eq)]
@@ -147,6 +150,7 @@ pub fn generate(seed: u64, _tier: Tier) -> HScenario {
         policy,
         sched_seed: root.sub("sched").next_u64(),
         tokio_seed: root.sub("tokio").next_u64(),
+        hash_seed: root.sub("hash").next_u64() | 1,
     };
     let key_pool = rng.range(1, 3) as i32;
     // Swarm style: the shape of the table and the presence of failures / suspensions are drawn per run.
